@@ -173,6 +173,50 @@ def float_zero_linearised(chk: Check, n):
                 break
 
 
+def float_other_variants(chk: Check, n):
+    """theta and the covariate centre are pooled over CONTROL and TREATMENT: a third variant present in the data must not
+    enter them — the pair analysed inside a three-variant frame equals the pair analysed on its own rows"""
+    import numpy as np
+    import pyarrow as pa
+    import pyarrow.compute as pc
+    import tea_tasting as tt
+    rng = np.random.default_rng(chk.seed + 68)
+    for k in range(n):
+        alt, ev, ut = analysis.CELLS[k % len(analysis.CELLS)]
+        sizes = [int(rng.integers(15, 60)) for _ in range(3)]
+        N = sum(sizes)
+        variant = np.repeat([0, 1, 2], sizes)
+        cov = rng.normal(0, 1, N) + np.repeat([0.0, 0.3, 4.0], sizes)      # the third variant's covariate sits elsewhere
+        y = 2.0 + 0.8 * cov * np.repeat([1.0, 1.0, -1.5], sizes) + rng.normal(0, 1, N)
+        den = rng.integers(1, 5, N).astype(float)
+        data = pa.table({"variant": variant, "y": y, "x": cov, "d": den, "dx": den + rng.integers(0, 3, N)})
+        kw = dict(alternative=alt, equal_var=ev, use_t=ut)
+        ms = dict(mean_cov=tt.Mean("y", "x", **kw), ratio_cov=tt.RatioOfMeans("y", "d", "x", "dx", **kw))
+        chk.case(("other-variants", alt, ev, ut))
+        chk.branch("consequence:third-variant-present")
+        only = data.filter(pc.is_in(data["variant"], value_set=pa.array([0, 1])))
+        try:
+            full = {k_: m.analyze(data, 0, 1, "variant") for k_, m in ms.items()}
+            exp3 = tt.Experiment(ms).analyze(data, 0, all_variants=True)[(0, 1)]
+            pair = {k_: m.analyze(only, 0, 1, "variant") for k_, m in ms.items()}
+        except Exception as ex:  # noqa: BLE001
+            chk.fail("analysis raised on a three-variant frame", dict(options=kw, error=repr(ex)))
+            continue
+        for name in ms:
+            for label, got in (("metric.analyze on the three-variant frame", full[name]), ("Experiment.analyze, pair (0, 1)", exp3[name])):
+                bad = [f for f in analysis.FIELDS
+                       if not (float(getattr(got, f)) == float(getattr(pair[name], f))
+                               or abs(float(getattr(got, f)) - float(getattr(pair[name], f)))
+                               <= 1e-9 * max(abs(float(getattr(got, f))), abs(float(getattr(pair[name], f)))) + 1e-12)]
+                if bad:
+                    chk.fail("with a covariate, the result for (control, treatment) changes when a third variant is present in "
+                             "the data: the coefficient / covariate centre are not pooled over the two compared variants only",
+                             dict(metric=name, how=label, options=kw, field=bad[0], sizes=sizes,
+                                  got=float(getattr(got, bad[0])), pair_only=float(getattr(pair[name], bad[0])),
+                                  seed=chk.seed, case=k))
+                    break
+
+
 def build(chk, n_per_kind, max_rows=14):
     cases = []
     i = 0
@@ -202,6 +246,7 @@ def main():
         run_cases(chk, build(chk, 60), family=2, with_gen=have_model, label="[family 2] ")
     consequences(chk, cases[:: 2 if chk.tier == "quick" else 1])
     float_zero_linearised(chk, 12 if chk.tier == "quick" else 120)
+    float_other_variants(chk, 12 if chk.tier == "quick" else 120)
     float_affine(chk, 12 if chk.tier == "quick" else 96)
     chk.cov["rule"] = ("random rational data sets (2..28 rows per variant, balanced and 1:many), metric kinds "
                        "Mean+covariate / ratio+numerator covariate / ratio+ratio covariate, covariate modes "
